@@ -445,6 +445,7 @@ def schain_batch(ctx, hexe, dexe, cases):
     mlines = ["chain %d 3 %s %s" % (c[0], fmt_list([0] * len(c[2])), fmt_list(c[3])) for c in cases]
     ho = run_harness(hexe, lines)
     rc2, do, e2 = stream.run_lines(dexe, mlines, timeout=900)
+    disagree = None
     for i, c in enumerate(cases):
         ctx.count(("schain", lines[i]), nontrivial=len(c[2]) >= 2)
         empties = sum(1 for blk in c[2] if all(v < 0 for v in blk))
@@ -461,11 +462,15 @@ def schain_batch(ctx, hexe, dexe, cases):
                           "records of the blocks", {"stream": "schain", "op": lines[i], "impl_records": got,
                                                     "expected": want})
             return True
-        if i >= len(do) or ho[i].split(" END")[0] != do[i].split(" END")[0]:
-            ctx.violation("stream: model and implementation disagree on a driven schedule of the chain with a Stream reader",
-                          {"stream": "schain", "op": lines[i], "model_op": mlines[i], "impl": ho[i][:3000],
-                           "model": do[i][:3000] if i < len(do) else None}, no_input=True)
-            return True
+        if disagree is None and (i >= len(do) or ho[i].split(" END")[0] != do[i].split(" END")[0]):
+            disagree = i      # keep scanning the batch with the property oracle before reporting without an input
+    if disagree is not None:
+        i = disagree
+        ctx.violation("stream: model and implementation disagree on a driven schedule of the chain with a Stream reader",
+                      {"stream": "schain", "op": lines[i], "model_op": mlines[i], "impl": ho[i][:3000],
+                       "model": do[i][:3000] if i < len(do) else None,
+                       "searched": "%d driven schedules of this batch with the property oracle" % len(cases)}, no_input=True)
+        return True
     return False
 
 
@@ -634,6 +639,7 @@ def fail_batch(ctx, hexe, dexe, n):
                                       ";".join(fmt_list(f) for f in c[3]), fmt_list(c[4])) for c in cases]
     ho = run_harness(hexe, lines)
     rc2, do, e2 = stream.run_lines(dexe, lines, timeout=900)
+    disagree = None
     for i, c in enumerate(cases):
         ctx.count(("pcqf", lines[i]), nontrivial=any(c[3]))
         ctx.hist("pcq.copyfail.threads_with_failures", sum(1 for f in c[3] if f))
@@ -643,11 +649,15 @@ def fail_batch(ctx, hexe, dexe, n):
                           {"stream": "pcq-copyfail", "op": lines[i], "impl": ho[i][:3000],
                            "model": do[i][:3000] if i < len(do) else None})
             return True
-        if i >= len(do) or ho[i] != do[i]:
-            ctx.violation("PCQueue with failing element copies: model and implementation disagree on a driven schedule",
-                          {"stream": "pcq-copyfail", "op": lines[i], "impl": ho[i][:3000],
-                           "model": do[i][:3000] if i < len(do) else None}, no_input=True)
-            return True
+        if disagree is None and (i >= len(do) or ho[i] != do[i]):
+            disagree = i      # keep scanning the batch with the property oracle before reporting without an input
+    if disagree is not None:
+        i = disagree
+        ctx.violation("PCQueue with failing element copies: model and implementation disagree on a driven schedule",
+                      {"stream": "pcq-copyfail", "op": lines[i], "impl": ho[i][:3000],
+                       "model": do[i][:3000] if i < len(do) else None,
+                       "searched": "%d driven schedules of this batch with the property oracle" % len(cases)}, no_input=True)
+        return True
     return False
 
 
